@@ -6,6 +6,7 @@ import (
 	"encoding/base64"
 	"encoding/json"
 	"fmt"
+	"github.com/mikefarah/yq/v4/pkg/yqlib"
 	"net/url"
 	"os"
 	"os/exec"
@@ -336,7 +337,7 @@ func checkC19(rc *Run) error {
 		}
 	})
 	// (b) format auto-detection
-	nshF := rc.Pick(3, 1)
+	nshF := rc.Pick(1, 1) // the whole decision table in both tiers (768 rows, a few seconds)
 	for i := range fmts {
 		if i%nshF != int(rc.Seed%int64(nshF)) {
 			continue
@@ -412,11 +413,59 @@ func checkC19(rc *Run) error {
 					missing = append(missing, l)
 				}
 			}
+			// the same with NUL-separated output (-0): the result's bytes, its final line break replaced by NUL - nothing may be lost
+			if !s.MustFail && len(missing) == 0 {
+				args0 := append([]string{"-0"}, args...)
+				r0, err0 := runCli(dir, "", false, args0...)
+				count()
+				if err0 == nil && !r0.Hang {
+					lost := []string{}
+					for _, l := range sd.leaves {
+						if !strings.Contains(r0.Stdout, l) && s.Fmt != "base64" && s.Fmt != "uri" {
+							lost = append(lost, l)
+						}
+					}
+					if r0.Code == 0 && len(lost) > 0 {
+						rc.Report(fmt.Sprintf("silently-dropped-with-nul-separator:%s:%s", s.Fmt, s.Shape), fmt.Sprintf("yq %s exits 0 but the output %q does not hold the value (missing leaves %v); without -0 it prints %q", strings.Join(args0, " "), r0.Stdout, lost, r.Stdout),
+							M{"machine": "Cli", "concrete": M{"argv": append([]string{"yq"}, args0...), "input": sd.yaml}, "expected": "every leaf in the output, or an error", "observed": M{"exit": 0, "stdout": r0.Stdout}})
+					} else if r0.Code != 0 && strings.TrimSpace(r0.Stderr) == "" {
+						rc.Report("silent-failure:encode-nul:"+s.Fmt+":"+s.Shape, "non-zero exit without a message", M{"machine": "Cli", "concrete": M{"argv": append([]string{"yq"}, args0...), "input": sd.yaml}})
+					}
+				}
+			}
 			if s.MustFail || len(missing) > 0 {
 				rc.Report(fmt.Sprintf("silently-dropped:%s:%s", s.Fmt, s.Shape), fmt.Sprintf("yq %s exits 0 but the output %q does not hold the value (missing leaves %v; not representable: %v)", strings.Join(args, " "), r.Stdout, missing, s.MustFail),
 					M{"machine": "Cli", "concrete": concrete, "expected": "an error, or every leaf in the output", "observed": M{"exit": 0, "stdout": r.Stdout}})
 			}
 		})
+	}
+	// (d) every name yq knows a format by, as input format and as the first file's extension: a result or an error message, never an abort
+	for _, f := range yqlib.Formats {
+		for _, name := range append([]string{f.FormalName}, f.Names...) {
+			if name == "" {
+				continue
+			}
+			nm := name
+			jobsList = append(jobsList, func(w int) {
+				dir := filepath.Join(rc.Out, fmt.Sprintf("w%d", w))
+				os.RemoveAll(dir)
+				os.MkdirAll(dir, 0o755)
+				os.WriteFile(filepath.Join(dir, "in.txt"), []byte("a: 1\n"), 0o644)
+				os.WriteFile(filepath.Join(dir, "in."+nm), []byte("a: 1\n"), 0o644)
+				for _, args := range [][]string{{"-p=" + nm, ".", "in.txt"}, {".", "in." + nm}, {"ea", "-p=" + nm, ".", "in.txt"}, {"-p=" + nm, "-n", "1"}} {
+					r, err := runCli(dir, "", false, args...)
+					count()
+					if err != nil || r.Hang {
+						continue
+					}
+					if strings.Contains(r.Stderr, "panic:") || strings.Contains(r.Stderr, "goroutine ") {
+						rc.Report("abort-on-input-format-name:"+nm, fmt.Sprintf("yq %s aborts: %s", strings.Join(args, " "), firstLine(r.Stderr)), M{"machine": "Cli", "concrete": M{"argv": append([]string{"yq"}, args...), "input": "a: 1\n"}})
+					} else if r.Code != 0 && strings.TrimSpace(r.Stderr) == "" {
+						rc.Report("silent-failure:input-format-name:"+nm, fmt.Sprintf("yq %s: exit %d without a message", strings.Join(args, " "), r.Code), M{"machine": "Cli", "concrete": M{"argv": append([]string{"yq"}, args...)}})
+					}
+				}
+			})
+		}
 	}
 	jobs := make(chan job, 64)
 	var wg sync.WaitGroup
@@ -445,6 +494,11 @@ func checkC19(rc *Run) error {
 		{"tsv", "tsv", "a\tb\n1\t2\n", "a\tb\n1\t2\n3\n"},
 		{"json", "json", "{\"a\": 1}\n", "{\"a\": 1}\n{\"a\": \n"},
 		{"json", "json", "{\"a\": 1}\n", "{\"a\": [1, 2}\n"},
+		{"json", "json", "{\"a\": 1}\n", "{\"a\": 1}\n]\n{\"c\": 3}\n"}, // a stray closing bracket between documents
+		{"json", "json", "{\"a\": 1}\n", "]\n"},
+		{"json", "json", "{\"a\": 1}\n", "[1, 2]]\n"},
+		{"json", "json", "{\"a\": 1}\n", "{\"a\": 1}}\n"},
+		{"json", "json", "{\"a\": 1}\n", "{\"a\": 1} x\n"},
 		{"xml", "xml", "<a>1</a>\n", "<a><b>1</a>\n"},
 		{"toml", "toml", "a = 1\n", "a = 1\nb = \n"},
 		{"lua", "lua", "return {a = 1}\n", "return {a = 1\n"},
